@@ -3,7 +3,7 @@ import itertools
 
 from . import common
 from .common import Exc
-from .url_grammar import gen_su, spelling_variants, call, gen_url
+from .url_grammar import gen_su, spelling_variants, call, gen_url, wrap_redirect
 from .norm_common import DEFAULTS
 
 THEOREMS = ['C04_inference_is_a_prestep', 'C04_query_order_irrelevant'] + ["(main statement: harness deciders on the implementation + model correspondence — partial)"]
@@ -42,6 +42,63 @@ def irrelevant_variants(su, rng):
     return out
 
 
+def composed_variant(su, rng):
+    """Several documented-irrelevant transformations applied together, each to its own part of the url (the statement's
+    "alone and composed"): dotted irrelevant labels outside, the AMP 'amp-' prefix on the label that follows them."""
+    import re
+    v = su.copy()
+    names = []
+    slots = rng.sample(["scheme", "userinfo", "subdomain", "ampdash", "port", "hostcase", "tail", "fragment", "tracking", "order", "amp_sep", "hex", "wrap"], rng.choice([2, 2, 3, 4]))
+    dotted = ""
+    dash = ""
+    post = []
+    for slot in slots:
+        if slot == "scheme":
+            v.scheme = rng.choice(["http://", "https://", "", "//"]); names.append("scheme")
+        elif slot == "userinfo":
+            v.userinfo = "user:pw@"; names.append("userinfo")
+        elif slot == "subdomain":
+            dotted = rng.choice(["www.", "www2.", "m.", "mobile.", "amp.", "www.m.", "WWW.", "m.www."]); names.append("subdomain " + dotted)
+        elif slot == "ampdash":
+            dash = "amp-"; names.append("amp-")
+        elif slot == "port" and su.port == "":
+            v.port = rng.choice([":80", ":443"]); names.append("default port")
+        elif slot == "hostcase":
+            post.append("hostcase"); names.append("host case")
+        elif slot == "tail":
+            if su.segs and rng.random() < 0.5:
+                v.trailing = not su.trailing; names.append("trailing slash")
+            else:
+                v.segs = su.segs + [rng.choice(["index.html", "index.php", "default.aspx", "index", "index.htm"])]; v.trailing = False; names.append("index page")
+        elif slot == "fragment" and su.fragment is None:
+            v.fragment = rng.choice(["top", "section-2", "", "a=b"]); names.append("fragment")
+        elif slot == "tracking":
+            items = v.query.split("&") if v.query else []
+            pos = rng.randrange(len(items) + 1)
+            v.query = "&".join(items[:pos] + [rng.choice(TRACKING)] + items[pos:]); names.append("tracking item")
+        elif slot == "order" and v.query and "&" in v.query:
+            items = v.query.split("&"); rng.shuffle(items); v.query = "&".join(items); names.append("item order")
+        elif slot == "amp_sep":
+            post.append("amp_sep")
+        elif slot == "hex":
+            post.append("hex")
+        elif slot == "wrap":
+            post.append("wrap")
+    v.host = dotted + dash + su.host
+    if "hostcase" in post:
+        v.host = v.host.upper()
+    if "amp_sep" in post and v.query and "&" in v.query:
+        v.query = v.query.replace("&", rng.choice(["&amp;", "&amp%3B"])); names.append("&amp;")
+    r = v.render()
+    if "hex" in post:
+        r = re.sub(r"%[0-9A-Fa-f]{2}", lambda m: m.group(0).lower(), r); names.append("lower-case hex")
+    if "wrap" in post:
+        pre = rng.choice(["", " ", "\t\n", "\x00", " \x00", "\x7f \x01"])
+        suf = rng.choice(["", " ", "\n", "\x00", " \x00", "\x00 ", " \x7f\t", "\x1b \x0e"])
+        r = pre + r + suf; names.append("surrounding whitespace / control characters")
+    return " + ".join(names), r
+
+
 def run(res, tier, rng):
     from ural import normalize_url, infer_redirection
 
@@ -52,12 +109,13 @@ def run(res, tier, rng):
         su = gen_su(rng, hosts=hosts)
         # the documented-irrelevant fragment / index must not already be there
         base = su.render()
-        for kw in (dict(), dict(quoted=True)):
+        for kw in (dict(), dict(quoted=True), dict(platform_aware=True)):
             nb = call(normalize_url, base, **kw)
             if isinstance(nb, Exc):
                 res.violation("property", "normalize_url raised %s" % nb, input=dict(url=base, options=kw))
                 continue
             variants = irrelevant_variants(su, rng) + [x for x in spelling_variants(su, rng) if not x[0].startswith("pair:")]
+            variants += [composed_variant(su, rng) for _ in range(6)]
             for name, v in variants:
                 res.evaluations += 1
                 if name == "trailing slash" and not su.segs:
@@ -72,8 +130,11 @@ def run(res, tier, rng):
     # redirection inference is exactly a pre-step
     for _ in range(1500 if tier == "quick" else 30000):
         u = gen_url(rng)
-        if rng.random() < 0.5:
+        r = rng.random()
+        if r < 0.3:
             u = "http://r.com/?url=" + __import__("urllib.parse").parse.quote(u, safe="") if rng.random() < 0.7 else "http://r.com/login?next=/a/b"
+        elif r < 0.6:
+            u = wrap_redirect(u, rng)
         res.evaluations += 1
         a = call(normalize_url, u)
         b = call(normalize_url, call(infer_redirection, u), infer_redirection=False)
@@ -82,7 +143,8 @@ def run(res, tier, rng):
     res.nontrivial = nontriv
     res.rule = ("structured base urls x every documented-irrelevant transformation alone (scheme / none / '//', userinfo, www / www2 / m / mobile / amp. / amp- / stacked subdomains, default ports, "
                 "host case, trailing slash, trailing index / default page, non-routing fragment, a tracking / session / AMP item at a random position, every permutation of 2-4 items, "
-                "'&amp;' / '&amp%3B' for '&') plus C02's spelling transformations; default options and quoted=True; redirection inference as a pre-step on urls of the C01 grammar wrapped in "
+                "'&amp;' / '&amp%3B' for '&') plus C02's spelling transformations, and 6 random compositions of 2-4 of them per base (each on its own part of the url: dotted labels outside an 'amp-' prefix, "
+                "whitespace / control characters around the string in any order); default options, quoted=True and platform_aware=True; redirection inference as a pre-step on urls of the C01 grammar wrapped in "
                 "redirects. Non-trivial = distinct variants that normalize to their base's form.")
     res.sample(dict(url="https://www.lemonde.fr/a/index.html?utm_source=x&b=1#top", normalized=call(normalize_url, "https://www.lemonde.fr/a/index.html?utm_source=x&b=1#top")))
     res.theorems = THEOREMS
